@@ -1,24 +1,52 @@
-(* Corr/C14Corr.v — case checker for the C14 correspondence (model vs implementation).
+(* Corr/C14Corr.v — case checkers for the C14 correspondence (model vs implementation).
    Depends on the model only. *)
 From CKT Require Import Common.Base Common.Circ Model.Decompose.
 
+Definition out_beq := res_beq (pair_beq circ_beq Nat.eqb).
+
 (* case = (basis environment, input instruction list, #clbits of the input, instruction_ids,
-           map_ids (None = omitted), canonical implementation result (instruction list, size of the new
-           final register), input_untouched)
-   input_untouched is computed by the harness: canonical form, registers and bit counts of the INPUT
-   circuit after the call equal those before it (checked for every inplace=False call, also when the
-   call raised); it is `true` by convention for inplace=True calls.  map ids are Python ints (Z). *)
+           map_ids (None = omitted; entries are Python ints or None), canonical implementation result
+           (instruction list, size of the new final register), side_ok)
+   side_ok is computed by the harness from observations the functional model cannot express:
+     inplace=False : canonical form, registers and bit counts of the INPUT circuit after the call equal those
+                     before it (also when the call raised);
+     inplace=True  : when the call was refused, the argument circuit is unchanged ("refused cleanly");
+     successful call: the new register is the LAST register and its bits are the final clbits. *)
 Definition c14_case : Type :=
-  benv * circ * nat * list (list nat) * option (list Z) * res (circ * nat) * bool.
+  benv * circ * nat * list (list nat) * option (list (option Z)) * res (circ * nat) * bool.
 
 Definition chk_decompose (c : c14_case) : bool :=
-  let '(env, ci, nc, ids, maps, e, untouched) := c in
-  res_beq (pair_beq circ_beq Nat.eqb) (decompose env ci nc ids maps) e && untouched.
+  let '(env, ci, nc, ids, maps, e, side_ok) := c in
+  out_beq (decompose env ci nc ids maps) e && side_ok.
+
+(* known finding F17 (quiet group, used only while KNOWN_FINDINGS.json lists it): ONE gate object appended at several
+   positions and inplace=True — an assignment to one position is seen at every position holding the same object.
+   CURRENT behaviour = the model with the assignment groups closed under aliasing (aids); validation and the
+   expansion use the real groups. *)
+Definition decompose_f17 (env : benv) (c : circ) (nc : nat) (ids aids : list (list nat))
+  (maps : option (list (option Z))) : res (circ * nat) :=
+  res_bind (validate c ids) (fun _ =>
+  res_bind (set_basis_ids env c aids maps) (fun c1 =>
+  finish env c1 nc ids)).
+
+Definition c14_f17_case : Type :=
+  benv * circ * nat * list (list nat) * list (list nat) * option (list (option Z)) * res (circ * nat) * bool.
+
+Definition chk_decompose_f17 (c : c14_f17_case) : bool :=
+  let '(env, ci, nc, ids, aids, maps, e, side_ok) := c in
+  out_beq (decompose_f17 env ci nc ids aids maps) e && side_ok.
 
 (* stream "preset": a basis_id is put on a placeholder through the setter or a constructor.
-   case = (basis environment, basis handle of the gate, attempted id, outcome of the attempt) *)
-Definition c14_preset_case : Type := benv * nat * Z * res unit.
+   case = (basis environment, basis handle of the gate, attempted id, outcome of the attempt,
+           when an in-range id was accepted: (circuit after the attempt, #clbits, instruction_ids, result of
+           decompose_qpd_instructions with map_ids omitted)) *)
+Definition c14_preset_case : Type :=
+  benv * nat * Z * res unit * option (circ * nat * list (list nat) * res (circ * nat)).
 
 Definition chk_preset (c : c14_preset_case) : bool :=
-  let '(env, b, m, e) := c in
-  res_beq (fun _ _ => true) (setter env b m) e.
+  let '(env, b, m, e, after) := c in
+  res_beq (fun _ _ => true) (setter env b m) e &&
+  match after with
+  | None => true
+  | Some (c', nc, ids, e2) => out_beq (decompose env c' nc ids None) e2
+  end.
